@@ -225,8 +225,10 @@ impl LruManager {
             self.key_map.len()
         );
 
-        // Delete previous generation file
-        if self.prev_generation != 0 {
+        // Delete previous generation file. After `bump_generation` followed by a
+        // load of the file that was current before the bump, the previous
+        // generation equals the current one: that is the file just written.
+        if self.prev_generation != 0 && self.prev_generation != self.generation {
             let prev_path = lru_file_path(&self.data_dir, self.prev_generation);
             if let Err(e) = tokio::fs::remove_file(&prev_path).await
                 && e.kind() != std::io::ErrorKind::NotFound
@@ -716,6 +718,28 @@ mod tests {
         let second_path = lru_file::lru_file_path(dir.path(), 2);
         assert!(second_path.exists());
         assert!(!first_path.exists()); // Deleted by checkpoint
+    }
+
+    #[tokio::test]
+    async fn test_checkpoint_after_bump_and_reload_keeps_its_file() {
+        // bump_generation, then a load of the file that was current before the
+        // bump (nothing newer exists yet): previous == current generation, and
+        // the checkpoint used to delete the file it had just written
+        let dir = tempdir().expect("tempdir");
+        let mut lru = LruManager::new(100, dir.path().to_path_buf());
+
+        lru.touch(&[0xAA; 9]);
+        lru.checkpoint_to_disk().await.expect("first checkpoint");
+        lru.bump_generation();
+        lru.load_from_disk(1).await.expect("reload");
+        lru.touch(&[0xBB; 9]);
+        lru.checkpoint_to_disk().await.expect("second checkpoint");
+
+        assert!(lru_file::lru_file_path(dir.path(), lru.generation()).exists());
+        let mut reloaded = LruManager::new(100, dir.path().to_path_buf());
+        reloaded.run_cycle(0, 1).await.expect("run_cycle");
+        assert!(reloaded.contains(&[0xAA; 9]));
+        assert!(reloaded.contains(&[0xBB; 9]));
     }
 
     #[test]
